@@ -17,7 +17,7 @@ FUNCTIONS = [
 ]
 BOUNDS = {
     "matching": "reference of 4 bins with concrete coordinates; one bin at a time has fully symbolic log2/spread/depth/gc (the others concrete, passing); sample = all / subset / permuted rows / one absent / duplicated coordinates",
-    "arithmetic": "3 target + 0-2 antitarget bins on two autosomes, every reference bin passing the filters (pooled: log2 in [0.05, 0.95], spread in [0.001, 1]; or flat), sample log2 in [-3, 3] (no null coverage: one path through the masks), corrections off",
+    "arithmetic": "3 target (+1 on chrX in the with_x configurations) + 0-2 antitarget bins on two autosomes, every reference bin passing the filters (pooled: log2 in [0.05, 0.95], spread in [0.001, 1]; or flat), sample log2 in [-3, 3] (no null coverage: one path through the masks), corrections off",
     "row permutation": "do_fix on 4 target + 0-2 antitarget bins with symbolic sample log2 in [-3, 3], concrete passing reference (gc/rmask distinct or tied), every subset of corrections in the thorough tier, rows of target/antitarget/reference reversed, rotated or with the first two swapped, against the same call on sorted rows",
     "corrections": "center_by_window on 4 bins with a symbolic covariate (distinct values), window fraction 0.5 / 0.99; edge formulas with symbolic bin sizes and gaps",
 }
@@ -135,7 +135,20 @@ def run_fix(ctx, tcols, acols, rcols, var_choice, flags=(False, False, False), s
         descriptives.biweight_midvariance = real
 
 
-def h_arith(ctx, n_anti, shift=False, flat=False, case=None, bad_bin=False):
+def h_arith(ctx, n_anti, shift=False, flat=False, case=None, bad_bin=False, with_x=False):
+    """with_x: one more target bin, on chrX -- it is corrected like any other bin but does not
+    take part in the centring ('median of the autosomal chromosome medians is 0')."""
+    global TGT
+    tgt0 = TGT
+    if with_x:
+        TGT = TGT + [("chrX", 100, 300, "C")]
+    try:
+        return _h_arith(ctx, n_anti, shift, flat, case, bad_bin)
+    finally:
+        TGT = tgt0
+
+
+def _h_arith(ctx, n_anti, shift=False, flat=False, case=None, bad_bin=False):
     bins = TGT + ANTI[:n_anti]
     rcols = ref_table(ctx, bins, with_gc=False, ok_only=True, flat=flat)
     bad = None
@@ -182,6 +195,8 @@ def h_arith(ctx, n_anti, shift=False, flat=False, case=None, bad_bin=False):
     # centred: median of the autosomal chromosome medians is 0
     bych = {}
     for i, b in enumerate(bins):
+        if b[0] in ("chrX", "chrY"):
+            continue
         bych.setdefault(b[0], []).append(res[i].log2)
     ctx.claim(approx(median_term([median_term(v) for v in bych.values()]), 0), "the output is centred: the median of the autosomal chromosome medians is 0")
     # weights
@@ -332,7 +347,7 @@ HARNESSES = [
     Harness(
         "arithmetic",
         h_arith,
-        [{"n_anti": 0}, {"n_anti": 1}, {"n_anti": 1, "flat": True}, {"n_anti": 0, "shift": True}, {"n_anti": 0, "bad_bin": True}, {"n_anti": 1, "bad_bin": True, "tier": "thorough"}, {"n_anti": 1, "shift": True, "tier": "thorough"}, {"n_anti": 1, "flat": True, "shift": True, "tier": "thorough"}]
+        [{"n_anti": 0}, {"n_anti": 0, "with_x": True}, {"n_anti": 1, "with_x": True, "tier": "thorough"}, {"n_anti": 1}, {"n_anti": 1, "flat": True}, {"n_anti": 0, "shift": True}, {"n_anti": 0, "bad_bin": True}, {"n_anti": 1, "bad_bin": True, "tier": "thorough"}, {"n_anti": 1, "shift": True, "tier": "thorough"}, {"n_anti": 1, "flat": True, "shift": True, "tier": "thorough"}]
         + split_cases({"n_anti": 2, "tier": "thorough"}, ("sl0<=sl1", "sl0>sl1"), ("sl3<=sl4", "sl3>sl4"), ("rs0<=rs1", "rs0>rs1"), ("rs3<=rs4", "rs3>rs4")),
         covers=["reached", "rescaled"],
         wall_s=400,
